@@ -703,3 +703,27 @@ def waiter_lists(chk, rule, cls, min_fields=1):
         chk.ob(rule, "waiters filed in %s.%s (by %s) have a resolver" % (cls.name, fld[5:], ", ".join(x.name for x in makers)), bool(resolvers),
                makers[0].where(), construct=makers[0].ident, text="waiters of %s never resolved" % fld)
     return len(fields), n_res
+
+
+def rescaled_time_strings(repo, prefixes=("mpf/",)):
+    """[(func, node, text)] where the result of Util.string_to_secs / string_to_ms is multiplied or divided by 1000.  The two parsers
+    differ in what a bare number means (seconds vs milliseconds): `string_to_secs(x) * 1000` is dimensionally ms but reads `250` as
+    250 s.  The only legitimate rescaling is inside string_to_secs itself, for strings that carry a unit."""
+    out = []
+    n = 0
+    for f in repo.all_funcs():
+        if not any(f.relpath.startswith(p) for p in prefixes):
+            continue
+        for x in walk_local(f.node):
+            if isinstance(x, ast.Call) and call_attr(x) in ("string_to_secs", "string_to_ms"):
+                n += 1
+        if f.qualname.endswith("Util.string_to_secs"):
+            continue
+        for x in walk_local(f.node):
+            if isinstance(x, ast.BinOp) and isinstance(x.op, (ast.Mult, ast.Div, ast.FloorDiv)):
+                sides = [x.left, x.right]
+                k = [y for y in sides if isinstance(y, ast.Constant) and y.value in (1000, 1000.0, 0.001)]
+                c = [y for s_ in sides for y in ast.walk(s_) if isinstance(y, ast.Call) and call_attr(y) in ("string_to_secs", "string_to_ms")]
+                if k and c:
+                    out.append((f, x, src(x)))
+    return out, n
